@@ -9,7 +9,7 @@
    behaviour: validated on real pools by the check, not proved. *)
 From Coq Require Import ZArith List Bool.
 From BV Require Import Lib.PyVal Gen.K_worker Model.Worker Proofs.WorkerProofs.
-From BV Require Model.Pool Proofs.PoolJobs Proofs.PoolInv Proofs.PoolTick Proofs.PoolCor.
+From BV Require Gen.G_pool_shape Model.Pool Proofs.PoolJobs Proofs.PoolInv Proofs.PoolTick Proofs.PoolCor.
 Import ListNotations.
 Open Scope Z_scope.
 
@@ -55,6 +55,15 @@ Theorem C08_terminate_job_resolves_terminated : forall s x p,
     Pool.value (PoolTick.tick_job s x) = Some (Pool.PTerminated (- Pool.exit_of s p)).
 Proof. exact PoolTick.tick_terminated. Qed.
 Print Assumptions C08_terminate_job_resolves_terminated.
+
+(* terminate() signals and joins EVERY live worker, whatever flags it carries (facts computed
+   from the AST of /repo/billiard/pool.py on this run) *)
+Theorem C08_code_shape :
+  G_pool_shape.terminate_signals_every_live_worker = true /\
+  G_pool_shape.terminate_joins_every_live_worker = true /\
+  G_pool_shape.terminate_job_flags_worker = true.
+Proof. repeat split; reflexivity. Qed.
+Print Assumptions C08_code_shape.
 
 Definition c08_cfg := Pool.mkcfg 2 None None None None 1 false false.
 Definition c08_tr : list Pool.event :=
